@@ -502,4 +502,30 @@ theorem ops_roundtrip (fm : Fm) (a : Ops) (v0 : Nat) (vs : List Nat) (hu : unuse
       rw [immTotal_spec k _ _ _ _ _ t himm.1 ht h, immPieces_tile fm t hlt]
       exact hshow
 
+theorem mergeOK_sound (bad : List Mn) : ∀ (es : List Isa) (rows : List Row), mergeOK bad es rows = true →
+    ∀ r ∈ rows, r.mn ∉ bad → ∃ e ∈ es, rowIsa r e = true := by
+  intro es
+  induction es with
+  | nil =>
+    intro rows h r hr
+    simp only [mergeOK, List.isEmpty_iff] at h
+    subst h; cases hr
+  | cons e es ih =>
+    intro rows h r hr hb
+    cases rows with
+    | nil => cases hr
+    | cons r0 rs =>
+      simp only [mergeOK] at h
+      split at h
+      · rename_i hmn
+        simp only [Bool.and_eq_true, Bool.or_eq_true, List.contains_eq_mem, decide_eq_true_eq] at h
+        rcases List.mem_cons.mp hr with rfl | hr'
+        · rcases h.1 with hbad | hrow
+          · exact absurd hbad hb
+          · exact ⟨e, List.mem_cons_self, hrow⟩
+        · obtain ⟨e', he', hre'⟩ := ih rs h.2 r hr' hb
+          exact ⟨e', List.mem_cons_of_mem _ he', hre'⟩
+      · obtain ⟨e', he', hre'⟩ := ih (r0 :: rs) h r hr hb
+        exact ⟨e', List.mem_cons_of_mem _ he', hre'⟩
+
 end WaVerif.C17.La
